@@ -20,6 +20,7 @@ case kinds (field 'kind'):
   seqdft     Sequence.DFT() / roundtrip                       -> values in Q(zeta_M)
   exprdft    nexpr(expr).DFT(N) at k<N                        -> values in Q(zeta_M)
   expridft   kexpr(expr).IDFT(N) at n<N                       -> values in Q(zeta_M)
+  keyhist    calls on one transformer instance vs fresh instances -> same[], shared[], fresh[]
 """
 import sys
 import json
@@ -503,6 +504,41 @@ def run(case):
                 vals.append(eval_index(Xs, var, kv, Nv))
             out[str(Nv)] = cyc_list(vals, M)
         return {'vals': out, 'expr': str(Xs)[:300]}
+    if kind == 'keyhist':
+        # a history of calls on ONE transformer instance (shared result cache) against the same calls on fresh instances
+        import importlib
+        from lcapy import symbol
+        from lcapy.sym import fsym
+        Nsymbol = symbol('N', integer=True, positive=True).sympy
+        mod = importlib.import_module('lcapy.' + case['module'])
+        cls = getattr(mod, case['cls'])
+        from lcapy import fexpr
+        dom = {'n': nexpr, 'k': kexpr, 'z': zexpr, 'f': fexpr}[case['var']]
+        syms = {'n': nsym, 'k': ksym, 'z': zsym, 'f': fsym}
+
+        def kw_of(d):
+            out = {}
+            for k_, v_ in d.items():
+                out[k_] = Nsymbol if v_ == 'N' else v_
+            return out
+        shared = cls()
+        res_sh, res_fr = [], []
+        for expr_, kw_ in case['calls']:
+            e = dom(expr_).sympy
+            res_sh.append(shared.transform(e, syms[case['var']], syms[case['conj']], **kw_of(kw_)))
+        for expr_, kw_ in case['calls']:
+            e = dom(expr_).sympy
+            res_fr.append(cls().transform(e, syms[case['var']], syms[case['conj']], **kw_of(kw_)))
+        same = []
+        for a_, b_ in zip(res_sh, res_fr):
+            ok = (a_ == b_)
+            if not ok:
+                try:
+                    ok = sp.simplify(a_ - b_) == 0
+                except Exception:
+                    ok = False
+            same.append(bool(ok))
+        return {'same': same, 'shared': [str(x)[:200] for x in res_sh], 'fresh': [str(x)[:200] for x in res_fr]}
     raise ValueError('unknown kind ' + kind)
 
 
